@@ -538,6 +538,7 @@ func (p *Parent) run() int {
 
 	matched := map[*KnownFinding]int{}
 	var unmatched []Failure
+	knownKeys := 0
 	for _, k := range keys {
 		f, ok := confirmed[k]
 		if !ok {
@@ -550,7 +551,9 @@ func (p *Parent) run() int {
 				hit = true
 			}
 		}
-		if !hit {
+		if hit {
+			knownKeys++
+		} else {
 			f.Count = int64(len(byKey[k]))
 			unmatched = append(unmatched, f)
 		}
@@ -595,8 +598,8 @@ func (p *Parent) run() int {
 	}
 	p.writeEvidence(time.Since(t0), len(unmatched), matchedKeys, keys)
 	exh := !p.agg.DeadlineHit && !p.notExh
-	fmt.Printf("%s %s: cases=%d evaluations=%d distinct=%d nontrivial=%d transitions=%d failing_keys=%d known=%d violations=%d exhaustive=%v wall=%.1fs\n",
-		p.Check.ID, p.Tier, p.agg.Cases, p.agg.Evals, p.agg.Distinct, p.agg.Nontrivial, p.agg.Ops, len(keys), len(keys)-len(unmatched), len(unmatched), exh, time.Since(t0).Seconds())
+	fmt.Printf("%s %s: cases=%d evaluations=%d distinct=%d nontrivial=%d transitions=%d failing_keys=%d known=%d not_reproduced=%d violations=%d exhaustive=%v wall=%.1fs\n",
+		p.Check.ID, p.Tier, p.agg.Cases, p.agg.Evals, p.agg.Distinct, p.agg.Nontrivial, p.agg.Ops, len(keys), knownKeys, len(p.harness), len(unmatched), exh, time.Since(t0).Seconds())
 	return exit
 }
 
